@@ -33,6 +33,11 @@ class StageIO(ScriptIO):
                 self.pend.append([now + dt, d])
         self.loaded += 1
 
+    def read(self, n, timeout=None):
+        if self.reactor is not None and timeout is not None:
+            timeout = round(timeout * UNIT) / UNIT      # init phase: data is there at once, the exact value is irrelevant
+        return super().read(n, timeout)
+
     reactor = None      # reactive mode (used while a shell initialises): fn(line) -> reaction bytes
 
     def write(self, buf):
